@@ -308,7 +308,26 @@ pub const V19_ENUMERATE_OFFSETS: u32 = 1;
 
 pub fn gen_c19(rng: &mut Rng, thorough: bool) -> History {
     let mut surf = gen_surface(rng, 64, true, true);
-    if rng.chance(1, 8) {
+    if rng.chance(1, 2500) {
+        // a large surface (more than 2^18 pixels) that compresses to next to nothing: blank, one
+        // colour, or sparse - an export path chosen by size or by content, and a file small enough
+        // to sit in a write buffer until the very end, where a failed write is easily lost
+        let (w, h) = (rng.range(512, 600), rng.range(512, 560));
+        let n = (w * h) as usize;
+        let c = match rng.below(3) {
+            0 => 0,
+            1 => 0xff000000 | (rng.next_u32() & 0xffffff),
+            _ => valid_pixel(rng),
+        };
+        let mut pixels = vec![c; n];
+        if rng.chance(1, 2) {
+            for _ in 0..20 {
+                let i = rng.usize(n);
+                pixels[i] = valid_pixel(rng);
+            }
+        }
+        surf = SurfSpec { w, h, pixels };
+    } else if rng.chance(1, 8) {
         // arbitrary words: the layout claims are for all pixel values
         for p in surf.pixels.iter_mut() {
             *p = rng.next_u32();
